@@ -154,6 +154,18 @@ merges ALL the states, the results are chained -/
 def chainMergeStates (stages : List (AStage K V X R)) (states : List (KV K V)) : KV K V :=
   stages.flatMap fun st => st.mergeStates states
 
+/-- A stage whose aggregates are mergeable metrics (`Model/Agg/Core.lean`, the interface C01/C11 prove `Lawful`
+instances of): `create_state = make()`, `update_state s x = s.add(sel x)`, `merge_states([a, b]) = a.merge(b)`,
+`get_result = result` (`MergeableMetricAggFn`, base.py:168-200).  With it `foldl upd create feed` is
+`Strategy.Agg.state`: the bridge between this keyed model and the per-aggregate one of `Model/Strategy.lean`. -/
+def AStage.ofMergeable {Y : Type} (keys : List K) (m : K → Agg.Mergeable Y V R) (sel : K → X → List Y) :
+    AStage K V X R where
+  keys := keys
+  create k := (m k).empty
+  upd k s x := (m k).add s (sel k x)
+  merge k := (m k).merge
+  result k := (m k).result
+
 end Chain
 
 /-! ## Concrete aggregate library of the correspondence (twin of `harness/lib_c03y.py`)
